@@ -207,7 +207,8 @@ func cEnvInt(name string, def int) int {
 // runs without any hook so that the race detector sees the code's own synchronisation only.
 const cStableID = 4000
 
-var cExps = []net.IP{{10, 0, 0, 1}, {10, 0, 0, 2}, net.ParseIP("2001:db8::1"), {192, 168, 7, 7}}
+// (4-octet IPv4, IPv6, and IPv4 in the 16-octet form the default wildcard socket reports)
+var cExps = []net.IP{{10, 0, 0, 1}, {10, 0, 0, 2}, net.ParseIP("2001:db8::1"), {192, 168, 7, 7}, net.ParseIP("10.0.0.9")}
 var cIDs = []int{256, 257, cStableID}
 
 // cAgedCache announces version 50 of every key, dumps, makes every entry of the file an hour old and loads it
@@ -339,9 +340,19 @@ func TestVerifCacheStress(t *testing.T) {
 			time.Sleep(time.Duration(200+rand.Intn(400)) * time.Microsecond)
 		}
 	}()
-	wg.Wait()
-	close(stop)
-	dwg.Wait()
+	finished := make(chan struct{})
+	go func() { wg.Wait(); close(stop); dwg.Wait(); close(finished) }()
+	select {
+	case <-finished:
+	case <-time.After(time.Duration(cEnvInt("VERIF_HANG_S", 150)) * time.Second):
+		// the workers (or the dumper) are stuck: what has been recorded, and that it ended like this
+		rec.mu.Lock()
+		evs := append([]cEvent{}, rec.events...)
+		rec.mu.Unlock()
+		evs = append(evs, cEvent{Seq: int64(len(evs) + 1), Ev: "Hung"})
+		cWrite(out, evs)
+		return
+	}
 	verifHook = nil
 	if !record {
 		cWrite(out, nil)
